@@ -70,6 +70,33 @@ theorem granted_bound (il : List Act) (s : St) (h : s.granted = true → s.bound
     apply ih
     cases a <;> simp only [act] <;> (try split) <;> simp_all
 
+/-- the repaired code's steps: the timer callback is ONE step (decision and removal inside one critical section) -/
+inductive Step | timer | bind
+deriving DecidableEq, Repr
+
+def stepU (s : St) : Step → St
+  | .timer => act (act s .check) .remove
+  | .bind => act s .bind
+
+def invU (s : St) : Bool := !s.fault && (s.granted → s.bound)
+
+theorem invU_step (s : St) (a : Step) (h : invU s = true) : invU (stepU s a) = true := by
+  obtain ⟨registered, bound, granted, decided, fault⟩ := s
+  cases a <;> cases registered <;> cases bound <;> cases granted <;> cases decided <;> cases fault <;> simp_all [invU, stepU, act]
+
+/-- **unbounded form**: after ANY sequence of deadline callbacks and ConnectionBind attempts (repeated, late, in any order) no
+    granted connection has been closed by the deadline -/
+theorem never_faults_any_schedule (il : List Step) : (il.foldl stepU {}).fault = false := by
+  have hinv : ∀ (il : List Step) (s : St), invU s = true → invU (il.foldl stepU s) = true := by
+    intro il
+    induction il with
+    | nil => intro s h; simpa using h
+    | cons a il ih => intro s h; exact ih _ (invU_step s a h)
+  have h := hinv il {} (by decide)
+  generalize il.foldl stepU {} = s at h
+  obtain ⟨registered, bound, granted, decided, fault⟩ := s
+  cases fault <;> simp_all [invU]
+
 /-- with the decision under the lock, no interleaving of the deadline with a ConnectionBind (queued behind any other lock
     holder) closes a connection whose bind was granted -/
 theorem bind_vs_deadline_model : (interleavings (timer true) binder).all (fun il => !(run il).fault) = true := by decide
